@@ -1,13 +1,15 @@
 // C01 bounded stand-in: file build -> read round trip, and boxo-written file DAGs read back.
 //
 // Bounds (quick | thorough):
-//   builder side: link width W in {2,3} | {2,3,4,5}; chunker "size-3" | "size-{1,3,5,16}";
-//     every chunk count n in 0..W^3+W (thorough adds the default width 174 with size-3 and
-//     n in 0..176, 348, 349, 30277), content length n*K-1 (short last chunk) and n*K (exact);
-//     readers: file.NewUnixFSFile, unixfsnode.Reify, the "unixfs-preload" reifier;
-//     streamed reads with buffer sizes {1,2,3,4,7,64}; Seek(0,End) == len; declared FileSize == len.
-//   reference side: boxo balanced|trickle x raw|protobuf leaves x CIDv0|v1 (v0 only with protobuf
-//     leaves), W in {2,3}, n in 0..30 | W in {2,3,4}, n in 0..120; chunker size-3.
+//
+//	builder side: link width W in {2,3,4} | {2,3,4,5}; chunker "size-3" | "size-{1,3,5,16}";
+//	  every chunk count n in 0..W^3+W (thorough adds the default width 174 with size-3 and
+//	  n in 0..176, 348, 349, 30277), content length n*K-1 (short last chunk) and n*K (exact);
+//	  readers: file.NewUnixFSFile, unixfsnode.Reify, the "unixfs-preload" reifier;
+//	  streamed reads with buffer sizes {1,2,3,4,7,64}; Seek(0,End) == len; declared FileSize == len.
+//	reference side: boxo balanced|trickle x raw|protobuf leaves x CIDv0|v1 (v0 only with protobuf
+//	  leaves), W in {2,3}, n in 0..30 | W in {2,3,4}, n in 0..120; chunker size-3.
+//
 // Content bytes are pseudo-random from VERIF_SEED.
 package c01
 
@@ -127,7 +129,7 @@ func TestBounded(t *testing.T) {
 	saved := builder.DefaultLinksPerBlock
 	defer func() { builder.DefaultLinksPerBlock = saved }()
 
-	widths := vp.Pick([]int{2, 3}, []int{2, 3, 4, 5, 174})
+	widths := vp.Pick([]int{2, 3, 4}, []int{2, 3, 4, 5, 174})
 	ks := vp.Pick([]int{3}, []int{1, 3, 5, 16})
 	for _, w := range widths {
 		builder.DefaultLinksPerBlock = w
